@@ -264,6 +264,535 @@ Definition tr_BSWL_range (endpoints : (list go_endpoint_Endpoint)) : ctl (Z * Z 
     (fun st : Z * Z => let '(maxRange, totalWeight) := st in
     Next (maxRange, totalWeight, minWeight, maxWeight))).
 
+(* tars/protocol/codec/codec.go: func Reader.readHead *)
+Definition tr_readHead (rd : go_reader) : ctl unit (go_reader * Z * Z * bool) :=
+  let ty : Z := 0 in
+    let tag : Z := 0 in
+    let err : bool := false in
+    let '(rd, data, err) := (go_rd_readbyte rd) in
+    bindc (if (negb (Bool.eqb err false))
+      then Return (rd, ty, tag, err)
+      else Next rd)
+    (fun rd : go_reader =>
+    let ty := (Z.land data 15) in
+    let tag := (Z.shiftr (Z.land data 240) 4) in
+    bindc (if (tag =? 15)
+      then let '(rd, data, err) := (go_rd_readbyte rd) in
+        bindc (if (negb (Bool.eqb err false))
+          then Return (rd, ty, tag, err)
+          else Next rd)
+        (fun rd : go_reader =>
+        let tag := data in
+        Next (rd, tag, err, data))
+      else Next (rd, tag, err, data))
+    (fun st : go_reader * Z * bool * Z => let '(rd, tag, err, data) := st in
+    Return (rd, ty, tag, err))).
+
+(* tars/protocol/codec/codec.go: func Reader.unreadHead *)
+Definition tr_unreadHead (curTag : Z) (rd : go_reader) : ctl unit go_reader :=
+  let '(rd, _) := (go_rd_unreadbyte rd) in
+    bindc (if (15 <=? curTag)
+      then let '(rd, _) := (go_rd_unreadbyte rd) in
+        Next rd
+      else Next rd)
+    (fun rd : go_reader =>
+    Return rd).
+
+(* tars/protocol/codec/codec.go: func Reader.Next *)
+Definition tr_Next (n : Z) (rd : go_reader) : ctl unit (go_reader * (list N)) :=
+  bindc (if (n <=? 0)
+      then Return (rd, (@nil N))
+      else Next rd)
+    (fun rd : go_reader =>
+    let beg := (wrapS 64 ((go_len (rd_ref rd)) - (go_rd_len rd))) in
+    let '(rd, _, _) := (go_rd_seekcur n rd) in
+    let end_ := (wrapS 64 ((go_len (rd_ref rd)) - (go_rd_len rd))) in
+    if (go_slice_ok (rd_ref rd) beg end_) then (Return (rd, (go_slice (rd_ref rd) beg end_))) else Panic).
+
+(* tars/protocol/codec/codec.go: func Reader.Skip *)
+Definition tr_Skip (n : Z) (rd : go_reader) : ctl unit go_reader :=
+  bindc (if (n <=? 0)
+      then Return rd
+      else Next rd)
+    (fun rd : go_reader =>
+    let '(rd, _, _) := (go_rd_seekcur n rd) in
+    Return rd).
+
+Definition k_codec_maxSkipDepth : Z := 512.
+(* tars/protocol/codec/codec.go: func Reader.skipNested *)
+Definition tr_skipNested (skip : go_reader -> ctl unit (go_reader * bool)) (rd : go_reader) : ctl unit (go_reader * bool) :=
+  bindc (if (k_codec_maxSkipDepth <=? (rd_depth rd))
+      then Return (rd, true)
+      else Next rd)
+    (fun rd : go_reader =>
+    let rd := go_rd_set_depth rd (wrapS 64 ((rd_depth rd) + 1)) in
+    go_call (skip rd) (fun r__ => let '(rd, err) := r__ in
+    let rd := go_rd_set_depth rd (wrapS 64 ((rd_depth rd) - 1)) in
+    Return (rd, err))).
+
+Definition k_codec_StructEnd : Z := 11.
+(* tars/protocol/codec/codec.go: func Reader.skipFieldMap *)
+Fixpoint tr_skipFieldMap (fuel : nat) (rd : go_reader) {struct fuel} : ctl unit (go_reader * bool) :=
+  match fuel with O => Panic | S fuel =>
+  let length : Z := 0 in
+    go_call (tr_ReadInt32 fuel length 0 true rd) (fun r__ => let '(rd, length, err) := r__ in
+    bindc (if (negb (Bool.eqb err false))
+      then Return (rd, err)
+      else Next rd)
+    (fun rd : go_reader =>
+    bindc (go_count 0 (wrapS 32 (length * 2)) (fun (i : Z) => fun rd : go_reader =>
+      go_call (tr_readHead rd) (fun r__ => let '(rd, tyCur, _, err_1) := r__ in
+      bindc (if (negb (Bool.eqb err_1 false))
+        then Return (rd, err_1)
+        else Next rd)
+      (fun rd : go_reader =>
+      go_call (tr_skipField fuel tyCur rd) (fun r__ => let '(rd, _) := r__ in
+      Next rd)))) rd)
+    (fun rd : go_reader =>
+    Return (rd, false))))
+  end
+(* tars/protocol/codec/codec.go: func Reader.skipFieldList *)
+with tr_skipFieldList (fuel : nat) (rd : go_reader) {struct fuel} : ctl unit (go_reader * bool) :=
+  match fuel with O => Panic | S fuel =>
+  let length : Z := 0 in
+    go_call (tr_ReadInt32 fuel length 0 true rd) (fun r__ => let '(rd, length, err) := r__ in
+    bindc (if (negb (Bool.eqb err false))
+      then Return (rd, err)
+      else Next rd)
+    (fun rd : go_reader =>
+    bindc (go_count 0 length (fun (i : Z) => fun rd : go_reader =>
+      go_call (tr_readHead rd) (fun r__ => let '(rd, tyCur, _, err_1) := r__ in
+      bindc (if (negb (Bool.eqb err_1 false))
+        then Return (rd, err_1)
+        else Next rd)
+      (fun rd : go_reader =>
+      go_call (tr_skipField fuel tyCur rd) (fun r__ => let '(rd, _) := r__ in
+      Next rd)))) rd)
+    (fun rd : go_reader =>
+    Return (rd, false))))
+  end
+(* tars/protocol/codec/codec.go: func Reader.skipFieldSimpleList *)
+with tr_skipFieldSimpleList (fuel : nat) (rd : go_reader) {struct fuel} : ctl unit (go_reader * bool) :=
+  match fuel with O => Panic | S fuel =>
+  go_call (tr_readHead rd) (fun r__ => let '(rd, tyCur, _, err) := r__ in
+    bindc (if (negb (tyCur =? k_codec_BYTE))
+      then Return (rd, true)
+      else Next rd)
+    (fun rd : go_reader =>
+    bindc (if (negb (Bool.eqb err false))
+      then Return (rd, err)
+      else Next rd)
+    (fun rd : go_reader =>
+    let length : Z := 0 in
+    go_call (tr_ReadInt32 fuel length 0 true rd) (fun r__ => let '(rd, length, err) := r__ in
+    bindc (if (negb (Bool.eqb err false))
+      then Return (rd, err)
+      else Next rd)
+    (fun rd : go_reader =>
+    go_call (tr_Skip length rd) (fun rd =>
+    Return (rd, false)))))))
+  end
+(* tars/protocol/codec/codec.go: func Reader.skipField *)
+with tr_skipField (fuel : nat) (ty : Z) (rd : go_reader) {struct fuel} : ctl unit (go_reader * bool) :=
+  match fuel with O => Panic | S fuel =>
+  let tag__1 := ty in
+    bindc (if (tag__1 =? 0) then go_call (tr_Skip 1 rd) (fun rd =>
+        Next rd)
+      else (if (tag__1 =? 1) then go_call (tr_Skip 2 rd) (fun rd =>
+        Next rd)
+      else (if (tag__1 =? 2) then go_call (tr_Skip 4 rd) (fun rd =>
+        Next rd)
+      else (if (tag__1 =? 3) then go_call (tr_Skip 8 rd) (fun rd =>
+        Next rd)
+      else (if (tag__1 =? 4) then go_call (tr_Skip 4 rd) (fun rd =>
+        Next rd)
+      else (if (tag__1 =? 5) then go_call (tr_Skip 8 rd) (fun rd =>
+        Next rd)
+      else (if (tag__1 =? 6) then let '(rd, data, err) := (go_rd_readbyte rd) in
+        bindc (if (negb (Bool.eqb err false))
+          then Return (rd, err)
+          else Next rd)
+        (fun rd : go_reader =>
+        let l := data in
+        go_call (tr_Skip l rd) (fun rd =>
+        Next rd))
+      else (if (tag__1 =? 7) then let l_1 : Z := 0 in
+        let '(rd, l_1, err_1) := (go_rd_u32 rd) in
+        bindc (if (negb (Bool.eqb err_1 false))
+          then Return (rd, err_1)
+          else Next rd)
+        (fun rd : go_reader =>
+        go_call (tr_Skip l_1 rd) (fun rd =>
+        Next rd))
+      else (if (tag__1 =? 8) then go_call (tr_skipNested (tr_skipFieldMap fuel) rd) (fun r__ => let '(rd, err_2) := r__ in
+        bindc (if (negb (Bool.eqb err_2 false))
+          then Return (rd, err_2)
+          else Next rd)
+        (fun rd : go_reader =>
+        Next rd))
+      else (if (tag__1 =? 9) then go_call (tr_skipNested (tr_skipFieldList fuel) rd) (fun r__ => let '(rd, err_3) := r__ in
+        bindc (if (negb (Bool.eqb err_3 false))
+          then Return (rd, err_3)
+          else Next rd)
+        (fun rd : go_reader =>
+        Next rd))
+      else (if (tag__1 =? 13) then go_call (tr_skipFieldSimpleList fuel rd) (fun r__ => let '(rd, err_4) := r__ in
+        bindc (if (negb (Bool.eqb err_4 false))
+          then Return (rd, err_4)
+          else Next rd)
+        (fun rd : go_reader =>
+        Next rd))
+      else (if (tag__1 =? 10) then go_call (tr_skipNested (tr_SkipToStructEnd fuel) rd) (fun r__ => let '(rd, err_5) := r__ in
+        bindc (if (negb (Bool.eqb err_5 false))
+          then Return (rd, err_5)
+          else Next rd)
+        (fun rd : go_reader =>
+        Next rd))
+      else (if (tag__1 =? 11) then Next rd
+      else (if (tag__1 =? 12) then Next rd
+      else (Return (rd, true))))))))))))))))
+    (fun rd : go_reader =>
+    Return (rd, false))
+  end
+(* tars/protocol/codec/codec.go: func Reader.SkipToStructEnd *)
+with tr_SkipToStructEnd (fuel : nat) (rd : go_reader) {struct fuel} : ctl unit (go_reader * bool) :=
+  match fuel with O => Panic | S fuel =>
+  go_iter (go_call (tr_readHead rd) (fun r__ => let '(rd, ty, _, err) := r__ in
+      bindc (if (negb (Bool.eqb err false))
+        then Return (inr (rd, err))
+        else Next rd)
+      (fun rd : go_reader =>
+      go_call (tr_skipField fuel ty rd) (fun r__ => let '(rd, err) := r__ in
+      bindc (if (negb (Bool.eqb err false))
+        then Return (inr (rd, err))
+        else Next rd)
+      (fun rd : go_reader =>
+      bindc (if (ty =? k_codec_StructEnd)
+        then Return (inl rd)
+        else Next rd)
+      (fun rd : go_reader =>
+      Next rd))))))
+    (fun rd : go_reader =>
+    Return (rd, false))
+    (fun rd : go_reader => tr_SkipToStructEnd fuel rd)
+  end
+(* tars/protocol/codec/codec.go: func Reader.SkipToNoCheck *)
+with tr_SkipToNoCheck (fuel : nat) (tag : Z) (require : bool) (rd : go_reader) {struct fuel} : ctl unit (go_reader * bool * Z * bool) :=
+  match fuel with O => Panic | S fuel =>
+  go_iter (go_call (tr_readHead rd) (fun r__ => let '(rd, tyCur, tagCur, err) := r__ in
+      bindc (if (negb (Bool.eqb err false))
+        then bindc (if require
+            then Return (inr (rd, false, tyCur, true))
+            else Next rd)
+          (fun rd : go_reader =>
+          Return (inr (rd, false, tyCur, false)))
+        else Next rd)
+      (fun rd : go_reader =>
+      bindc (if (if (tyCur =? k_codec_StructEnd) then true else (tag <? tagCur))
+        then bindc (if require
+            then Return (inr (rd, false, tyCur, true))
+            else Next rd)
+          (fun rd : go_reader =>
+          go_call (tr_unreadHead tagCur rd) (fun rd =>
+          Return (inr (rd, false, tyCur, false))))
+        else Next rd)
+      (fun rd : go_reader =>
+      bindc (if (tagCur =? tag)
+        then Return (inr (rd, true, tyCur, false))
+        else Next rd)
+      (fun rd : go_reader =>
+      go_call (tr_skipField fuel tyCur rd) (fun r__ => let '(rd, err) := r__ in
+      bindc (if (negb (Bool.eqb err false))
+        then Return (inr (rd, false, tyCur, err))
+        else Next rd)
+      (fun rd : go_reader =>
+      Next rd)))))))
+    (fun rd : go_reader =>
+    Panic)
+    (fun rd : go_reader => tr_SkipToNoCheck fuel tag require rd)
+  end
+(* tars/protocol/codec/codec.go: func Reader.ReadInt32 *)
+with tr_ReadInt32 (fuel : nat) (data : Z) (tag : Z) (require : bool) (rd : go_reader) {struct fuel} : ctl unit (go_reader * Z * bool) :=
+  match fuel with O => Panic | S fuel =>
+  go_call (tr_SkipToNoCheck fuel tag require rd) (fun r__ => let '(rd, have, ty, err) := r__ in
+    bindc (if (negb (Bool.eqb err false))
+      then Return (rd, data, err)
+      else Next rd)
+    (fun rd : go_reader =>
+    bindc (if (negb have)
+      then Return (rd, data, false)
+      else Next rd)
+    (fun rd : go_reader =>
+    let tag__1 := ty in
+    bindc (if (tag__1 =? 12) then let data := 0 in
+        Next (rd, data, err)
+      else (if (tag__1 =? 0) then let tmp : Z := 0 in
+        let '(rd, tmp, err) := (go_rd_u8 rd) in
+        let data := (wrapS 8 tmp) in
+        Next (rd, data, err)
+      else (if (tag__1 =? 1) then let tmp_1 : Z := 0 in
+        let '(rd, tmp_1, err) := (go_rd_u16 rd) in
+        let data := (wrapS 16 tmp_1) in
+        Next (rd, data, err)
+      else (if (tag__1 =? 2) then let tmp_2 : Z := 0 in
+        let '(rd, tmp_2, err) := (go_rd_u32 rd) in
+        let data := (wrapS 32 tmp_2) in
+        Next (rd, data, err)
+      else (Return (rd, data, true))))))
+    (fun st : go_reader * Z * bool => let '(rd, data, err) := st in
+    bindc (if (negb (Bool.eqb err false))
+      then let err := true in
+        Next (rd, err)
+      else Next (rd, err))
+    (fun st : go_reader * bool => let '(rd, err) := st in
+    Return (rd, data, err))))))
+  end.
+
+(* tars/protocol/codec/codec.go: func Reader.SkipTo *)
+Definition tr_SkipTo (fuel : nat) (ty : Z) (tag : Z) (require : bool) (rd : go_reader) : ctl unit (go_reader * bool * bool) :=
+  go_call (tr_SkipToNoCheck fuel tag require rd) (fun r__ => let '(rd, have, tyCur, err) := r__ in
+    bindc (if (negb (Bool.eqb err false))
+      then Return (rd, false, err)
+      else Next rd)
+    (fun rd : go_reader =>
+    bindc (if (if have then (negb (ty =? tyCur)) else false)
+      then Return (rd, false, true)
+      else Next rd)
+    (fun rd : go_reader =>
+    Return (rd, have, false)))).
+
+(* tars/protocol/codec/codec.go: func Reader.ReadInt8 *)
+Definition tr_ReadInt8 (fuel : nat) (data : Z) (tag : Z) (require : bool) (rd : go_reader) : ctl unit (go_reader * Z * bool) :=
+  go_call (tr_SkipToNoCheck fuel tag require rd) (fun r__ => let '(rd, have, ty, err) := r__ in
+    bindc (if (negb (Bool.eqb err false))
+      then Return (rd, data, err)
+      else Next rd)
+    (fun rd : go_reader =>
+    bindc (if (negb have)
+      then Return (rd, data, false)
+      else Next rd)
+    (fun rd : go_reader =>
+    let tag__1 := ty in
+    bindc (if (tag__1 =? 12) then let data := 0 in
+        Next (rd, data, err)
+      else (if (tag__1 =? 0) then let tmp : Z := 0 in
+        let '(rd, tmp, err) := (go_rd_u8 rd) in
+        let data := (wrapS 8 tmp) in
+        Next (rd, data, err)
+      else (Return (rd, data, true))))
+    (fun st : go_reader * Z * bool => let '(rd, data, err) := st in
+    bindc (if (negb (Bool.eqb err false))
+      then let err := true in
+        Next (rd, err)
+      else Next (rd, err))
+    (fun st : go_reader * bool => let '(rd, err) := st in
+    Return (rd, data, err)))))).
+
+(* tars/protocol/codec/codec.go: func Reader.ReadInt16 *)
+Definition tr_ReadInt16 (fuel : nat) (data : Z) (tag : Z) (require : bool) (rd : go_reader) : ctl unit (go_reader * Z * bool) :=
+  go_call (tr_SkipToNoCheck fuel tag require rd) (fun r__ => let '(rd, have, ty, err) := r__ in
+    bindc (if (negb (Bool.eqb err false))
+      then Return (rd, data, err)
+      else Next rd)
+    (fun rd : go_reader =>
+    bindc (if (negb have)
+      then Return (rd, data, false)
+      else Next rd)
+    (fun rd : go_reader =>
+    let tag__1 := ty in
+    bindc (if (tag__1 =? 12) then let data := 0 in
+        Next (rd, data, err)
+      else (if (tag__1 =? 0) then let tmp : Z := 0 in
+        let '(rd, tmp, err) := (go_rd_u8 rd) in
+        let data := (wrapS 8 tmp) in
+        Next (rd, data, err)
+      else (if (tag__1 =? 1) then let tmp_1 : Z := 0 in
+        let '(rd, tmp_1, err) := (go_rd_u16 rd) in
+        let data := (wrapS 16 tmp_1) in
+        Next (rd, data, err)
+      else (Return (rd, data, true)))))
+    (fun st : go_reader * Z * bool => let '(rd, data, err) := st in
+    bindc (if (negb (Bool.eqb err false))
+      then let err := true in
+        Next (rd, err)
+      else Next (rd, err))
+    (fun st : go_reader * bool => let '(rd, err) := st in
+    Return (rd, data, err)))))).
+
+(* tars/protocol/codec/codec.go: func Reader.ReadInt64 *)
+Definition tr_ReadInt64 (fuel : nat) (data : Z) (tag : Z) (require : bool) (rd : go_reader) : ctl unit (go_reader * Z * bool) :=
+  go_call (tr_SkipToNoCheck fuel tag require rd) (fun r__ => let '(rd, have, ty, err) := r__ in
+    bindc (if (negb (Bool.eqb err false))
+      then Return (rd, data, err)
+      else Next rd)
+    (fun rd : go_reader =>
+    bindc (if (negb have)
+      then Return (rd, data, false)
+      else Next rd)
+    (fun rd : go_reader =>
+    let tag__1 := ty in
+    bindc (if (tag__1 =? 12) then let data := 0 in
+        Next (rd, data, err)
+      else (if (tag__1 =? 0) then let tmp : Z := 0 in
+        let '(rd, tmp, err) := (go_rd_u8 rd) in
+        let data := (wrapS 8 tmp) in
+        Next (rd, data, err)
+      else (if (tag__1 =? 1) then let tmp_1 : Z := 0 in
+        let '(rd, tmp_1, err) := (go_rd_u16 rd) in
+        let data := (wrapS 16 tmp_1) in
+        Next (rd, data, err)
+      else (if (tag__1 =? 2) then let tmp_2 : Z := 0 in
+        let '(rd, tmp_2, err) := (go_rd_u32 rd) in
+        let data := (wrapS 32 tmp_2) in
+        Next (rd, data, err)
+      else (if (tag__1 =? 3) then let tmp_3 : Z := 0 in
+        let '(rd, tmp_3, err) := (go_rd_u64 rd) in
+        let data := (wrapS 64 tmp_3) in
+        Next (rd, data, err)
+      else (Return (rd, data, true)))))))
+    (fun st : go_reader * Z * bool => let '(rd, data, err) := st in
+    bindc (if (negb (Bool.eqb err false))
+      then let err := true in
+        Next (rd, err)
+      else Next (rd, err))
+    (fun st : go_reader * bool => let '(rd, err) := st in
+    Return (rd, data, err)))))).
+
+(* tars/protocol/codec/codec.go: func Reader.ReadUint8 *)
+Definition tr_ReadUint8 (fuel : nat) (data : Z) (tag : Z) (require : bool) (rd : go_reader) : ctl unit (go_reader * Z * bool) :=
+  let n := data in
+    go_call (tr_ReadInt16 fuel n tag require rd) (fun r__ => let '(rd, n, err) := r__ in
+    let data := (wrapU 8 n) in
+    Return (rd, data, err)).
+
+(* tars/protocol/codec/codec.go: func Reader.ReadUint16 *)
+Definition tr_ReadUint16 (fuel : nat) (data : Z) (tag : Z) (require : bool) (rd : go_reader) : ctl unit (go_reader * Z * bool) :=
+  let n := data in
+    go_call (tr_ReadInt32 fuel n tag require rd) (fun r__ => let '(rd, n, err) := r__ in
+    let data := (wrapU 16 n) in
+    Return (rd, data, err)).
+
+(* tars/protocol/codec/codec.go: func Reader.ReadUint32 *)
+Definition tr_ReadUint32 (fuel : nat) (data : Z) (tag : Z) (require : bool) (rd : go_reader) : ctl unit (go_reader * Z * bool) :=
+  let n := data in
+    go_call (tr_ReadInt64 fuel n tag require rd) (fun r__ => let '(rd, n, err) := r__ in
+    let data := (wrapU 32 n) in
+    Return (rd, data, err)).
+
+(* tars/protocol/codec/codec.go: func Reader.ReadBool *)
+Definition tr_ReadBool (fuel : nat) (data : bool) (tag : Z) (require : bool) (rd : go_reader) : ctl unit (go_reader * bool * bool) :=
+  let tmp : Z := 0 in
+    bindc (if data
+      then let tmp := 1 in
+        Next (rd, tmp)
+      else Next (rd, tmp))
+    (fun st : go_reader * Z => let '(rd, tmp) := st in
+    go_call (tr_ReadInt8 fuel tmp tag require rd) (fun r__ => let '(rd, tmp, err) := r__ in
+    bindc (if (negb (Bool.eqb err false))
+      then Return (rd, data, err)
+      else Next rd)
+    (fun rd : go_reader =>
+    bindc (if (tmp =? 0)
+      then let data := false in
+        Next (rd, data)
+      else let data := true in
+        Next (rd, data))
+    (fun st : go_reader * bool => let '(rd, data) := st in
+    Return (rd, data, false))))).
+
+(* tars/protocol/codec/codec.go: func Reader.ReadString *)
+Definition tr_ReadString (fuel : nat) (data : (list N)) (tag : Z) (require : bool) (rd : go_reader) : ctl unit (go_reader * (list N) * bool) :=
+  go_call (tr_SkipToNoCheck fuel tag require rd) (fun r__ => let '(rd, have, ty, err) := r__ in
+    bindc (if (negb (Bool.eqb err false))
+      then Return (rd, data, err)
+      else Next rd)
+    (fun rd : go_reader =>
+    bindc (if (negb have)
+      then Return (rd, data, false)
+      else Next rd)
+    (fun rd : go_reader =>
+    bindc (if (ty =? k_codec_STRING4)
+      then let length : Z := 0 in
+        let '(rd, length, err) := (go_rd_u32 rd) in
+        bindc (if (negb (Bool.eqb err false))
+          then Return (rd, data, true)
+          else Next rd)
+        (fun rd : go_reader =>
+        bindc (if ((go_rd_len rd) <? length)
+          then Return (rd, data, true)
+          else Next rd)
+        (fun rd : go_reader =>
+        go_call (tr_Next length rd) (fun r__ => let '(rd, buff) := r__ in
+        let data := buff in
+        Next (rd, data, err))))
+      else bindc (if (ty =? k_codec_STRING1)
+          then let length_1 : Z := 0 in
+            let '(rd, length_1, err) := (go_rd_u8 rd) in
+            bindc (if (negb (Bool.eqb err false))
+              then Return (rd, data, true)
+              else Next rd)
+            (fun rd : go_reader =>
+            bindc (if ((go_rd_len rd) <? length_1)
+              then Return (rd, data, true)
+              else Next rd)
+            (fun rd : go_reader =>
+            go_call (tr_Next length_1 rd) (fun r__ => let '(rd, buff_1) := r__ in
+            let data := buff_1 in
+            Next (rd, data, err))))
+          else Return (rd, data, true))
+        (fun st : go_reader * (list N) * bool => let '(rd, data, err) := st in
+        Next (rd, data, err)))
+    (fun st : go_reader * (list N) * bool => let '(rd, data, err) := st in
+    Return (rd, data, false))))).
+
+(* tars/protocol/codec/codec.go: func Reader.ReadSliceUint8 *)
+Definition tr_ReadSliceUint8 (data : (list N)) (len : Z) (require : bool) (rd : go_reader) : ctl unit (go_reader * (list N) * bool) :=
+  bindc (if (if (len <? 0) then true else ((go_rd_len rd) <? len))
+      then Return (rd, data, true)
+      else Next rd)
+    (fun rd : go_reader =>
+    if (0 <=? len) then (let data := (go_make len 0%N) in
+    bindc (if (len =? 0)
+      then Return (rd, data, false)
+      else Next rd)
+    (fun rd : go_reader =>
+    let '(rd, data, _, err) := (go_rd_read data rd) in
+    bindc (if (negb (Bool.eqb err false))
+      then let err := true in
+        Next (rd, err)
+      else Next (rd, err))
+    (fun st : go_reader * bool => let '(rd, err) := st in
+    Return (rd, data, err)))) else Panic).
+
+(* tars/protocol/codec/codec.go: func Reader.ReadBytes *)
+Definition tr_ReadBytes (data : (list N)) (len : Z) (require : bool) (rd : go_reader) : ctl unit (go_reader * (list N) * bool) :=
+  bindc (if (if (len <? 0) then true else ((go_rd_len rd) <? len))
+      then Return (rd, data, true)
+      else Next rd)
+    (fun rd : go_reader =>
+    if (0 <=? len) then (let data := (go_make len 0%N) in
+    let '(rd, data, _, err) := (go_rd_readfull data rd) in
+    Return (rd, data, err)) else Panic).
+
+(* tars/servant.go: func ServantProxy.genRequestID, statements "^" .. "atomic.CompareAndSwapInt32(&msgID, maxInt32, 1)" *)
+Definition tr_genRequestID_cas (maxInt32 : Z) (rd : Z) : ctl Z (Z * Z) :=
+  let '(rd, _) := (go_atomic_cas32 maxInt32 1 rd) in
+    Next rd.
+
+(* tars/servant.go: func ServantProxy.genRequestID, statements "for {" .. "for {" *)
+Fixpoint tr_genRequestID_loop (fuel : nat) (rd : Z) {struct fuel} : ctl Z (Z * Z) :=
+  match fuel with O => Panic | S fuel =>
+  go_iter (let '(rd, v) := (go_atomic_add32 1 rd) in
+      bindc (if (negb (v =? 0))
+        then Return (inr (rd, v))
+        else Next rd)
+      (fun rd : Z =>
+      Next rd))
+    (fun rd : Z =>
+    Next rd)
+    (fun rd : Z => tr_genRequestID_loop fuel rd)
+  end.
+
 (* struct github.com/TarsCloud/TarsGo/tars/protocol/res/endpointf.EndpointF *)
 Record go_endpointf_EndpointF := { go_endpointf_EndpointF_Host : (list N);
   go_endpointf_EndpointF_Port : Z;
